@@ -57,6 +57,7 @@ func compileRaw(pc *progCase) (cp *compiledProg, bad V) {
 		mm.AddSourceModule(m.Name, []byte(m.Src))
 		files[m.Name] = m.Src
 	}
+	addSpecialModules(mm, pc)
 	fs := parser.NewFileSet()
 	sf := fs.AddFile("(main)", -1, len(pc.Src))
 	p := parser.NewParser(sf, []byte(pc.Src), nil)
@@ -232,6 +233,16 @@ func pipelinesHandle(raw []byte) map[string]interface{} {
 	res["wfC"] = dumpBytecode(dec, tengo.GlobalsSize)
 	res["C"] = runVM(cpC, dec)
 	res["encoded_bytes"] = buf.Len()
+	// the same encoding read a second time with the same module map: an independent program again
+	dec2 := &tengo.Bytecode{}
+	if err := dec2.Decode(bytes.NewReader(buf.Bytes()), cpC.mods); err != nil {
+		res["C2"] = V{"k": "decode_error", "msg": err.Error()}
+		return res
+	}
+	if len(pc.Inputs) == 0 {
+		cpC2 := &compiledProg{bc: dec2, globals: make([]tengo.Object, tengo.GlobalsSize), names: cpC.names, files: cpC.files, mods: cpC.mods}
+		res["C2"] = runVM(cpC2, dec2)
+	}
 	return res
 }
 
